@@ -2,11 +2,11 @@ package hc
 
 import (
 	"bufio"
-	"flag"
 	"bytes"
 	"context"
 	"encoding/hex"
 	"encoding/json"
+	"flag"
 	"fmt"
 	"math"
 	"math/big"
@@ -30,15 +30,15 @@ import (
 // canonical answers (one line per operation), and failures of laws checked directly on the
 // implementation's outputs.
 type Out struct {
-	dir   string
-	ops   *bufio.Writer
-	impl  *bufio.Writer
-	laws  *bufio.Writer
-	files []*os.File
-	n     int
-	extra int // executions that have no op line (law-only checks on the implementation)
-	Stats map[string]int
-	sig   map[string]bool // distinct non-trivial signatures
+	dir     string
+	ops     *bufio.Writer
+	impl    *bufio.Writer
+	laws    *bufio.Writer
+	files   []*os.File
+	n       int
+	extra   int // executions that have no op line (law-only checks on the implementation)
+	Stats   map[string]int
+	sig     map[string]bool // distinct non-trivial signatures
 	Samples []string
 }
 
@@ -173,6 +173,9 @@ func TrimSpaceRef(s string) string {
 
 var UTC = time.UTC
 
+// DatetimeFormats: the session's custom datetime formats (@@DATETIME_FORMAT) the profiles are computed under
+var DatetimeFormats []string
+
 // EncProfile asks the real conversion functions what they make of p.
 func EncProfile(p value.Primary) string {
 	if _, ok := p.(*value.String); !ok {
@@ -194,7 +197,7 @@ func EncFullProfile(p value.Primary) string {
 	} else {
 		parts[2] = "-"
 	}
-	if d := value.ToDatetime(p, nil, UTC); !value.IsNull(d) {
+	if d := value.ToDatetime(p, DatetimeFormats, UTC); !value.IsNull(d) {
 		parts[3] = EncTime(d.(*value.Datetime).Raw())
 	} else {
 		parts[3] = "-"
